@@ -34,10 +34,13 @@ func runC06(p *load.Program, r *oblig.Report) {
 	// a Conn whose exchange was abandoned mid-response (any error that is not a broker error code) is closed, so the
 	// rest of that response can never be taken for the answer to a later request (shared with C11)
 	sub := oblig.NewReport("C06", r.Tier)
-	newC11(p, sub).ruleR2()
+	c11 := newC11(p, sub)
+	c11.ruleR2()
+	c11.ruleR1()  // an error code raised mid-frame is followed by a drain: no leftover for the next exchange
+	c11.ruleR10() // every fetch response reaches Batch.close, which drains it and releases the read lock
 	for _, o := range sub.Obs {
 		o2 := *o
-		o2.Rule = "C06.R7 an abandoned exchange closes the connection (" + strings.SplitN(o.Rule, " ", 2)[0] + ")"
+		o2.Rule = "C06.R7 nothing of an abandoned or refused exchange is left on a connection that stays in use (" + strings.SplitN(o.Rule, " ", 2)[0] + ")"
 		r.Add(&o2)
 	}
 	for k, v := range sub.MinCount {
